@@ -260,10 +260,41 @@ def renderLevel (c : RenderCfg) (o : RenderOracles) (g : Graph) (pathInj : List 
     let (names, imps3, restR) ← renderLevel c o g pathInj fuel names rest
     pure (names, imps1 ++ rs.flatMap (·.1) ++ imps3, (idx, rs.map (·.2)) :: restR)
 
+/-- the models of a structure in pre-order (`walk` of `_prepare_class_names`) -/
+def preorder : Nat → List Node → Except PyErr (List String)
+  | 0, _ => .error .outOfFuel
+  | _, [] => pure []
+  | fuel + 1, .mk idx nested :: rest => do
+    let a ← preorder fuel nested
+    let b ← preorder fuel rest
+    pure (idx :: a ++ b)
+
+def nameOf (names : NameMap) (i : String) : Option String := ((names.find? (·.1 == i)).map (·.2)).join
+
+/-- one round of the `while True` loop: every model whose current name is shared gets its index appended -/
+def dedupRound (names : NameMap) (idxs : List String) : NameMap × Bool :=
+  let cur := idxs.map (nameOf names)
+  let dups := idxs.filter (fun i => (cur.filter (· == nameOf names i)).length > 1)
+  (dups.foldl (fun acc i => acc.set i (some ((nameOf acc i).getD "None" ++ "_" ++ i))) names, dups.isEmpty)
+
+def dedupLoop (idxs : List String) : Nat → NameMap → Except PyErr NameMap
+  | 0, _ => .error .outOfFuel
+  | fuel + 1, names =>
+    let r := dedupRound names idxs
+    if r.2 then pure names else dedupLoop idxs fuel r.1
+
+/-- `_prepare_class_names(structure, …)`: before anything is rendered every class name of the structure is converted,
+    then converted names that are not unique get the model index appended (all of them: independent of the layout) -/
+def prepareNames (c : RenderCfg) (o : RenderOracles) (names : NameMap) (roots : List Node) : Except PyErr NameMap := do
+  let idxs ← preorder (names.length + 2) roots
+  let names ← idxs.foldlM (fun acc i => convertNameAt c o acc i) names
+  dedupLoop idxs (idxs.length * idxs.length + 1) names
+
 /-- `generate_code(structure, class_generator, kwargs, preamble=...)`; also returns the names after rendering -/
 def generateCode (c : RenderCfg) (o : RenderOracles) (g : Graph) (roots : List Node) (pathInj : List (String × String))
     (preamble : Option String) : Except PyErr (String × NameMap) := do
   let names0 : NameMap := g.models.map (fun m => (m.idx, m.name))
+  let names0 ← prepareNames c o names0 roots
   let (names, imps1, gens) ← renderLevel c o g pathInj (g.models.length + 2) names0 roots
   let rs ← gens.mapM (fun (p : String × List String) =>
     genClass c o ⟨names, pathInj⟩ { (g.find? p.1).getD default with name := ((names.find? (·.1 == p.1)).map (·.2)).join } p.2)
